@@ -147,8 +147,14 @@ def run_translator(log):
     newest = max(os.path.getmtime(p) for p in glob.glob(os.path.join(src, "*.go")) + [os.path.join(src, "go.mod")])
     if not os.path.exists(binp) or os.path.getmtime(binp) < newest:
         os.makedirs(os.path.dirname(binp), exist_ok=True)
-        rc, out = sh(["go", "build", "-o", binp, "."], cwd=src, env=GOENV, timeout=300)
-        if rc != 0:
+        rc, out = sh(["go", "build", "-o", binp + ".new", "."], cwd=src, env=GOENV, timeout=300)
+        if rc == 0:
+            os.replace(binp + ".new", binp)
+        elif os.path.exists(binp):
+            # a generator file is being edited right now: keep using the last binary that built
+            # (on a fresh restore there is none, and setup.sh / this branch then fail for real)
+            log.append("[go2coq] WARNING: translator sources do not build, using the previous binary:\n" + out[-1500:])
+        else:
             return False, "translator does not build:\n" + out
     rc, out = sh([binp, "-repo", REPO, "-out", os.path.join(COQ, "gen")], timeout=120)
     log.append("[go2coq] rc=%d\n%s" % (rc, out[-4000:]))
@@ -398,7 +404,7 @@ class Ctx:
             f.write("\n".join(self.log))
 
     # -- step 1-3: obligations --------------------------------------------
-    def build(self, targets, properties_file):
+    def build(self, targets, properties_file, allowed_axioms=()):
         """Translator + make + Print Assumptions audit. Fills coverage['obligations'...]."""
         with Lock():
             ok, tout = run_translator(self.log)
@@ -458,9 +464,37 @@ class Ctx:
                 npa = len(re.findall(r"Print\s+Assumptions", src))
                 if len(blocks) != npa:
                     self.note("warning: %d Print Assumptions in source, %d blocks parsed" % (npa, len(blocks)))
-                for closed, text in blocks:
-                    if not closed:
-                        axioms.append(text)
+                # Enforced, not just recorded: EVERY statement of Properties/Cxx.v is asked for its assumptions
+                # (whether or not the source has a Print Assumptions line) and anything but "closed under the
+                # global context" fails the check unless the property script allow-lists that axiom by name.
+                if thms and rc2 == 0:
+                    mod = LOGICAL + "." + properties_file[:-2].replace("/", ".")
+                    pa = "From %s Require Import %s.\n" % (LOGICAL, properties_file[:-2].replace("/", ".")) + \
+                         "".join("Print Assumptions %s.\n" % t for t in thms)
+                    d = os.path.join(COQ, "cases")
+                    os.makedirs(d, exist_ok=True)
+                    pan = "PA_%s" % self.pid
+                    with open(os.path.join(d, pan + ".v"), "w") as f:
+                        f.write(pa)
+                    rc3, out3 = sh(["coqc", "-q", "-Q", ".", LOGICAL, os.path.join("cases", pan + ".v")], cwd=COQ, timeout=900)
+                    for ext in (".vo", ".vok", ".vos", ".glob", ".v"):
+                        try:
+                            os.unlink(os.path.join(d, pan + ext))
+                        except OSError:
+                            pass
+                    blocks = parse_assumptions(out3)
+                    if rc3 != 0 or len(blocks) != len(thms):
+                        self.broken.append({"kind": "obligation", "file": properties_file,
+                                            "error": "Print Assumptions audit failed (rc=%d, %d blocks for %d statements): %s" % (rc3, len(blocks), len(thms), out3[-800:])})
+                    for t, (closed, text) in zip(thms, blocks):
+                        if not closed:
+                            names = re.findall(r"^([A-Za-z_][\w.']*)\s*:", text, re.M)
+                            bad = [n for n in names if n.split(".")[-1] not in allowed_axioms and n not in allowed_axioms]
+                            axioms.append("%s depends on: %s" % (t, ", ".join(names) or text[:200]))
+                            if bad or not names:
+                                self.broken.append({"kind": "axioms", "statement": t, "what": "%s depends on axioms not allow-listed: %s" % (t, ", ".join(bad) or text[:200])})
+                                self.note("axiom dependency: %s -> %s" % (t, bad or text[:200]))
+                    self.coverage["print_assumptions_checked"] = len(blocks)
             self.coverage.update({
                 "obligations": len(names),
                 "discharged": discharged,
